@@ -15,7 +15,7 @@ func init() {
 	vc.RegisterBFS("C01", clusterModel{})
 	vc.Register(&vc.Check{
 		ID: "C02", Level: "model_checking", Serial: true,
-		Rule: "states: breadth-first search over action histories of N=2,3 real Serf nodes (inert memberlist each; the harness plays memberlist and the network): join (real Serf.Join against an in-memory push/pull responder that runs the peer's real LocalState/MergeRemoteState), graceful leave (real Leave in its own thread, progressing as its broadcast is taken and virtual time passes), force-leave, delivery of any queued intent from any node to any other (any order, duplicates, loss = never delivering), memberlist up/down notifications in causal order, push/pull between any two connected nodes, ticks; at most L lifecycle operations per history; every transition checks 'status times only grow' and 'a stale intent changes no status'; in every state a closure (finish leaves, memberlist converges, deliver everything, sync all pairs until nothing changes) is run and the settled statuses are compared with the truth table of the statement; states are deduplicated on the canonical private state of all nodes plus harness views and outboxes",
+		Rule: "states: breadth-first search over action histories of N=2,3 real Serf nodes (inert memberlist each; the harness plays memberlist and the network): join (real Serf.Join against an in-memory push/pull responder that runs the peer's real LocalState/MergeRemoteState), graceful leave (real Leave in its own thread, progressing as its broadcast is taken and virtual time passes), force-leave, delivery of any queued intent from any node to any other (any order, duplicates, loss = never delivering), memberlist up/down notifications in causal order, push/pull between any two connected nodes, ticks; at most L lifecycle operations per history; every transition checks 'status times only grow' and 'a stale intent changes no status'; in every state a closure (finish leaves, memberlist converges, deliver everything, sync all pairs until nothing changes) is run and the settled statuses are compared with the truth table of the statement; states are deduplicated on the canonical private state of all nodes plus harness views and outboxes. observer;T=k: breadth-first search (depth 7 quick / 9 thorough) over everything ONE real node can be told about one other member x: memberlist up/down, join and leave intents with k older/newer Lamport times each (also while x is unknown, so that they are buffered), state syncs listing x as alive or left; after every step: the record does not vanish, its status time does not decrease, an intent that is not newer changes no status, memberlist moves are legal, and the record created when x appears is not older than the newest intent received about x before",
 		Assumptions: []string{
 			"memberlist contract (DESIGN.md §2.3): alive notification only for a started, reachable node not currently held alive; dead notification only for a down or unreachable node held alive; user messages in any order, any number of times, or never; push/pull merges alive nodes only",
 			"a departed member's leave counts as known to the cluster only if its intent was handed to a node that is still running at the end; otherwise left and failed are both accepted",
